@@ -31,12 +31,18 @@ func (process *Process) SpawnThenTransitionNP(re *RuntimeEnvironment) {
 		re.monitor.MonitorNewProcess(process)
 	}
 
+	if simSpawn(process, re, true) {
+		return
+	}
+
 	go process.transitionLoopNP(re)
 }
 
 // Entry point for each process transition
 func (process *Process) transitionLoopNP(re *RuntimeEnvironment) {
 	re.logProcessf(LOGPROCESSING, process, "Process transitioning: %s\n", process.Body.String())
+
+	simStep(process, re)
 
 	// Send heartbeat
 	re.heartbeat <- struct{}{}
@@ -61,14 +67,17 @@ func TransitionBySendingNP(process *Process, toChan chan Message, continuationFu
 		// Split process if needed
 		process.performDUPruleNP(re)
 	} else {
+		simBefore(process, re, SimSelectSendNP, toChan, nil, process.Providers[0].ControlChannel)
 		select {
 		case <-re.ctx.Done():
 			// Handle timeout event
 			return
 		case cm := <-process.Providers[0].ControlChannel:
+			simAfter(process, re, SimDoneCtl)
 			handleControlMessageNP(process, cm, re)
 		case toChan <- sendingMessage:
 			// Sending a message to toChan
+			simAfter(process, re, SimDoneData)
 			continuationFunc()
 		}
 	}
@@ -83,14 +92,17 @@ func TransitionByReceivingNP(process *Process, clientChan chan Message, processM
 		// Split process if needed
 		process.performDUPruleNP(re)
 	} else {
+		simBefore(process, re, SimSelectRecvNP, clientChan, nil, process.Providers[0].ControlChannel)
 		select {
 		case <-re.ctx.Done():
 			// Received cancellation request, so stop
 			return
 		case cm := <-process.Providers[0].ControlChannel:
+			simAfter(process, re, SimDoneCtl)
 			handleControlMessageNP(process, cm, re)
 		case receivedMessage := <-clientChan:
 			// Acting as a client by consuming a message from some channel
+			simAfter(process, re, SimDoneData)
 			processMessageFunc(receivedMessage)
 		}
 	}
@@ -108,10 +120,13 @@ func TransitionInternallyNP(process *Process, internalFunction func(), re *Runti
 		// Split process if needed
 		process.performDUPruleNP(re)
 	} else {
+		simBefore(process, re, SimPollNP, nil, nil, process.Providers[0].ControlChannel)
 		select {
 		case cm := <-process.Providers[0].ControlChannel:
+			simAfter(process, re, SimDoneCtl)
 			handleControlMessageNP(process, cm, re)
 		default:
+			simAfter(process, re, SimDoneDefault)
 			internalFunction()
 		}
 	}
@@ -151,6 +166,7 @@ func fwdhandleControlMessageNP(process *Process, cm ControlMessage, re *RuntimeE
 func closeProvidersNP(providers []Name) {
 	for _, p := range providers {
 		if p.Channel != nil {
+			simClose(nil, nil, p)
 			close(p.Channel)
 		}
 		if p.ControlChannel != nil {
@@ -575,11 +591,14 @@ func (f *ForwardForm) TransitionNP(process *Process, re *RuntimeEnvironment) {
 	}
 
 	// TransitionAsSpecialForm(process, f.from_c.ControlChannel, forwardRule, controlMessage, re)
+	simBefore(process, re, SimSelectFwdNP, nil, f.from_c.ControlChannel, process.Providers[0].ControlChannel)
 	select {
 	case cm := <-process.Providers[0].ControlChannel:
 		// todo check if this should only happen if len(process.OtherProviders) == 0
+		simAfter(process, re, SimDoneCtl)
 		handleControlMessageNP(process, cm, re)
 	case f.from_c.ControlChannel <- controlMessage:
+		simAfter(process, re, SimDoneCtlSent)
 		forwardRule()
 	}
 }
